@@ -36,14 +36,14 @@ var walCodecFuncs = map[string]struct {
 	table string
 	base  int64
 }{
-	"(*db/wal.Reader).ReadHeader":                {"header", 0},
-	"(*db/wal.WALHeader).Copy":                   {"header", 0},
-	"(*db/wal.Writer).writeWALHeader":            {"header", 0},
-	"db/wal.ReadSaltAt":                          {"header", 16},
-	"db.IsValidSQLiteWALData":                    {"header", 0},
-	"(*db/wal.Reader).ReadFrame":                 {"frame", 0},
-	"(*db/wal.Writer).writeFrame":                {"frame", 0},
-	"(*db/wal.CompactingFrameScanner).Bytes":     {"frame", 0},
+	"(*db/wal.Reader).ReadHeader":                     {"header", 0},
+	"(*db/wal.WALHeader).Copy":                        {"header", 0},
+	"(*db/wal.Writer).writeWALHeader":                 {"header", 0},
+	"db/wal.ReadSaltAt":                               {"header", 16},
+	"db.IsValidSQLiteWALData":                         {"header", 0},
+	"(*db/wal.Reader).ReadFrame":                      {"frame", 0},
+	"(*db/wal.Writer).writeFrame":                     {"frame", 0},
+	"(*db/wal.CompactingFrameScanner).Bytes":          {"frame", 0},
 	"(*db/wal.CompactingFrameScanner).rescanVerified": {"frame", 0},
 }
 
